@@ -165,7 +165,10 @@ func (c *Ctx) freshVal(prefix string, t types.Type) *Val {
 		c.assumeSliceWF(v)
 		return v
 	case *types.Interface:
-		return &Val{K: KIface, Ty: t, Tag: c.Fresh(prefix+".tag", SInt), Pay: c.Fresh(prefix+".pay", SRef)}
+		v := &Val{K: KIface, Ty: t, Tag: c.Fresh(prefix+".tag", SInt), Pay: c.Fresh(prefix+".pay", SRef)}
+		// a nil interface has neither a type nor a payload
+		c.Assume(TTrue, And(ILe(IntLitI(0), v.Tag), Implies(Eq(v.Tag, IntLitI(0)), Eq(v.Pay, TNull))), "interface value well-formed")
+		return v
 	case *types.Struct:
 		v := &Val{K: KTuple, Ty: t}
 		for i := 0; i < u.NumFields(); i++ {
